@@ -341,12 +341,27 @@ pub fn check(prop: &str, tier: &str) -> i32 {
                     let path = rdir.join(format!("{:016x}.json", ctx::hash_str(&rec.to_string())));
                     let _ = fs::write(&path, serde_json::to_string_pretty(&rec).unwrap());
                     lines.push(format!("VIOLATION property={} replay={}", prop, path.display()));
+                    let short = |v: &Value, n: usize| -> String {
+                        let t = v.to_string();
+                        if t.chars().count() > n {
+                            format!("{}...", t.chars().take(n).collect::<String>())
+                        } else {
+                            t
+                        }
+                    };
+                    let c = &v["case"];
+                    let what = if c.get("rule").is_some() {
+                        format!("rule={} data={}", short(&c["rule"], 300), short(&c["data"], 100))
+                    } else {
+                        short(c, 400)
+                    };
                     eprintln!(
-                        "  [{}] {} expected {} got {}",
+                        "  [{}|{}] {} :: expected {} :: got {}",
                         v["sub"].as_str().unwrap_or("?"),
-                        v["case"],
-                        v["expected"].as_str().unwrap_or("?"),
-                        v["actual"].as_str().unwrap_or("?")
+                        v["profile"].as_str().unwrap_or("?"),
+                        what,
+                        short(&v["expected"], 200),
+                        short(&v["actual"], 200)
                     );
                 }
             }
